@@ -10,7 +10,7 @@ Fns == {"count", "sum", "min", "max", "avg", "var_pop", "var_samp", "stddev_pop"
 Lists == { <<f>> : f \in Fns } \cup
          { <<"count", "sum", "avg">>, <<"avg", "sum", "count">>, <<"min", "max">>, <<"var_pop", "avg", "var_samp">>,
            <<"stddev_pop", "stddev_samp", "count">>, <<"sum", "min", "max", "avg", "count", "var_pop", "var_samp", "stddev_pop", "stddev_samp">> }
-Cols == {"size", "hardlinks", "uid", "line_count", "length(name)"}
+Cols == {"size", "hardlinks", "uid", "line_count", "length(name)", "size * 2", "size + 1"}
 
 LikeA(c) == A1("name", "like", TextL(<<c, "%">>), "")
 Filters == [ all |-> <<"T">>, a |-> <<"A">>, b |-> <<"B">>, c |-> <<"C">>, d |-> <<"D">>, none |-> <<"Z">>,
